@@ -10,12 +10,13 @@ pub mod c13;
 pub mod c14;
 pub mod c15;
 pub mod c16;
+pub mod c18;
 pub mod c19;
 
 use cvx_core::engine::Check;
 
 pub fn registry() -> Vec<&'static dyn Check> {
-    vec![&c01::C01, &c04::C04, &c06::C06, &c07::C07, &c08::C08, &c09::C09, &c10::C10, &c12::C12, &c13::C13, &c14::C14, &c15::C15, &c16::C16, &c19::C19]
+    vec![&c01::C01, &c04::C04, &c06::C06, &c07::C07, &c08::C08, &c09::C09, &c10::C10, &c12::C12, &c13::C13, &c14::C14, &c15::C15, &c16::C16, &c18::C18, &c19::C19]
 }
 
 /// program families of a check (debugging aid)
@@ -25,6 +26,7 @@ pub fn families_of(id: &str, tier: cvx_core::engine::Tier) -> &'static Vec<Box<d
         "C08" => c08::families(tier),
         "C09" => c09::families(tier),
         "C15" => c15::families(tier),
+        "C18" => c18::families(tier),
         _ => c01::families(tier),
     }
 }
